@@ -5,7 +5,7 @@ k-th write-like call (write, pwrite, ftruncate) on the output file, for EVERY k 
 -f over an existing valid image).  The file left behind is offered to rdsquashfs -l /, rdsquashfs -d and sqfs2tar
 (asan) and to the independent parser: either every reader rejects it, or it reads exactly as the complete image.
 """
-import os, re, hashlib, shutil
+import struct, os, re, hashlib, shutil
 from hypothesis import strategies as st
 import vcommon, vbuild, scenarios, sqfsimg
 from vcommon import Violation, Inconclusive, CaseInfo, Result, Scratch
@@ -109,6 +109,12 @@ def check_case(case, opts):
                     bad.append("independent parser rejects it")
                 elif ptree != reftree:
                     bad.append("independent parser reads a different tree")
+                # "complete, correct image": everything up to bytes_used of the finished image is there, byte for byte (only padding may be missing)
+                used = struct.unpack_from("<Q", refimg, 40)[0]
+                if len(left) < used or left != refimg[:len(left)]:
+                    first = next((i for i in range(min(len(left), len(refimg))) if left[i] != refimg[i]), min(len(left), len(refimg)))
+                    bad.append("its bytes are not those of the finished image (%d of %d used bytes present, first difference at byte %d%s)" % (
+                        min(len(left), used), used, first, ", inside the super block" if first < 96 else ""))
                 if bad:
                     raise Violation("%s killed before output write %d of %d (%s): the file left behind (%d of %d bytes) is accepted by %s but %s" % (
                         kind, k, total, "over an existing image" if case.get("over_existing") else "fresh file", len(left), len(refimg),
